@@ -4,7 +4,7 @@
 cd "$(dirname "$0")"
 export CARGO_NET_OFFLINE=true
 (cd lean && lake build bnum_driver 2>&1 | tail -2)
-for f in lean/Bnum/Props/C*.lean; do
+for f in lean/Bnum/Props/*.lean; do
   m=$(basename "$f" .lean)
   (cd lean && lake build "Bnum.Props.$m" 2>&1 | tail -1)
 done
